@@ -255,6 +255,24 @@ def job_ahbm(tier, seed):
             goal = z3.And(goal, val == z3.substitute(val, *sub))
         ck.prove('Ahbm.Read%d.defined' % unit, [], goal, vars=vars_, witness=False,
                  sample='Ahbm::Read%d from any channel configuration (reserved burst / unit encodings included): the value comes from the external-memory callback, never from a queue slot that was not written; no abort, no index out of range' % unit)
+    # the AHBM channel a DMA channel is bound to indexes Ahbm::channels (3 entries): in range for every mapping register state
+    ex, st = kit.new_exec(E.mod, unwind=200)
+    ah = ex.new_region(st, L['_size'][0], 'ahbm')
+    ex.call(st, '@ahbm_ctor', [Ptr(ah, 0)])
+    regs_ = {}
+    off, sz, cnt, stride = L['ch.dma_channel']
+    for c_ in range(3):
+        regs_['ahbm.ch%d.dma_channel' % c_] = z3.BitVec('ahbm.ch%d.dma_channel' % c_, 8 * sz)
+        ex.store(st, Ptr(ah, off + c_ * stride), sz, regs_['ahbm.ch%d.dma_channel' % c_])
+    d = z3.BitVec('dma_channel', 16)
+    st.pc.append(z3.ULT(d, 8))
+    ex.exits, ex.oblig = [], []
+    try:
+        r = ex.call(st, '@ahbm_chan_for_dma', [Ptr(ah, 0), d])
+        ck.prove('Ahbm.GetChannelForDma.range', [z3.ULT(d, 8)], z3.And(z3.ULT(bv(r[1], 16), 3), z3.Not(kit.exit_cond(ex)), kit.obligations(ex)), vars=dict(regs_, dma_channel=d), witness=False,
+                 sample='the AHBM channel bound to a DMA channel (whatever the three mapping registers hold, including no mapping at all) is a valid index into the 3-entry channel array')
+    except (Abort, UnwindBound) as x:
+        ck.inconclusive.append('Ahbm.GetChannelForDma.range: %s' % str(x)[:100])
     return ck.export()
 
 
